@@ -65,7 +65,7 @@ class Check:
     def violation(self, key, desc, replay_payload=None):
         """key identifies the failing input/site/history; matched against known_findings.json."""
         for f in self.findings:
-            if f.get("status", "open") == "open" and f["property"] == self.pid and match_finding(f, key, desc):
+            if f.get("status", "open") == "open" and (f["property"] == self.pid or self.pid in f.get("also", [])) and match_finding(f, key, desc):
                 if f["id"] not in [k["id"] for k in self.known]:
                     self.known.append(f)
                 return False
